@@ -38,7 +38,7 @@ ASSUMED = [
     'A-SIGNAL: emitting streamReceived/stanzaReceived/streamClosed is a synchronous call that does not modify the XmppSocket (no re-entry into processData from a slot)',
     'A-TEXT-SIZE: QString::size() is the sum of the unknown positive lengths of the chunks (1..2^27 characters each), hence additive over concatenation; nothing else is known about it, so any threshold on the buffer size can be exceeded by a buffer that still holds an incomplete element',
     'A-STARTED: started() is the only announcement of a new stream; the reads of a connection arrive after the connected (plain TCP / STARTTLS first phase) resp. encrypted (direct TLS, STARTTLS second phase) handler has run (Qt delivers readyRead of a connection after connected(); TLS handshake bytes never reach readyRead)',
-    'A-READALL: QSslSocket::readAll() returns all bytes the transport delivered in this read and leaves none',
+    'A-SOCKET: ghost `pending` = bytes delivered by the transport and not yet taken; readAll() takes all of them, read(n) the first min(n, pending) and leaves the rest, bytesAvailable() = their number; readyRead() is emitted only when new bytes arrive (bytes a slot leaves behind are not announced again)',
     'A-UTF8-DEC (units/C03/utf8_model.h, bounded proofs only): concrete model of QString::fromUtf8(QByteArray) of Qt 5.15 -- input ends at the first NUL, a leading EF BB BF of the call is skipped, well-formed RFC 3629 sequences give their code point, every other byte (including the bytes of a sequence cut off by the end of the input) gives one U+FFFD. Compared with the real function on 4.7 million inputs by `replay_split.cpp model` (thorough tier: disagreement = exit 2).',
     'stand-in for processData in the bounded two-read lemma: the clause post.on_parse_failure_buffer_is_old_plus_data of its verified contract, read on concrete texts (buffer := old ++ data)',
     'logReceived(...) is logging only (dropped by the lowering; arguments side-effect free)',
@@ -206,7 +206,8 @@ def opaque_prof():
         '*::streamReceived/1': ('expr', 'ev_streamReceived({1})'),
         '*::streamClosed/0': ('expr', 'ev_streamClosed()'),
         # the readyRead lambda
-        'QSslSocket::readAll/0': ('fn', 'QSslSocket_readAll'),
+        'QSslSocket::readAll/0': ('fn', 'QSslSocket_readAll'), 'QSslSocket::read/1': ('fn', 'QSslSocket_read'),
+        'QSslSocket::bytesAvailable/0': ('fn', 'QSslSocket_bytesAvailable'),
         'fn:fromUtf8/1': ('fn', 'qtext_fromUtf8'), 'fn:fromLatin1/1': ('fn', 'qtext_fromOtherCodec'), 'fn:fromLocal8Bit/1': ('fn', 'qtext_fromOtherCodec'),
         'XmppSocket::processData/1': ('callee', 'XmppSocket_processData'),
     }
@@ -216,14 +217,38 @@ def opaque_prof():
 
 
 SOCKET_MODEL = """
-/* the readyRead lambda: QSslSocket::readAll() hands out all bytes the transport delivered in THIS read (opaque byte string) and
-   leaves nothing behind; QString::fromUtf8 is an uninterpreted function of those bytes (its bounded concrete model: utf8_model.h) */
+/* A-SOCKET  the receive side of the QSslSocket: a ghost byte string `pending` = the bytes the transport has delivered and the
+   application has not taken yet.  A byte string is an opaque id with a length (0 = empty); LEFT(b, n) / REST(b, n) are its first n
+   bytes and what follows them (uninterpreted, with only their lengths known).  readAll() takes all pending bytes, read(n) takes the
+   first min(n, pending) of them and leaves the rest, bytesAvailable() is the number pending.  readyRead() is emitted when NEW bytes
+   arrive, so what a slot leaves behind is not announced again.
+   QString::fromUtf8 is an uninterpreted function of the bytes (its bounded concrete model: utf8_model.h). */
 typedef int qbytes;
 typedef struct QSslSocket { qbytes pending; unsigned reads; } QSslSocket;
-qbytes gh_read_bytes;                      /* the bytes of this read */
+long long __CPROVER_uninterpreted_bytes_len(qbytes b);
+qbytes __CPROVER_uninterpreted_bytes_left(qbytes b, long long n);
+qbytes __CPROVER_uninterpreted_bytes_rest(qbytes b, long long n);
+#define BYTES_LEN(b) ((b) == 0 ? 0LL : __CPROVER_uninterpreted_bytes_len(b))
+#define MAX_BYTES (1LL << 40)
+static inline long long bytes_len(qbytes b) { if (b == 0) return 0; long long l = __CPROVER_uninterpreted_bytes_len(b); __CPROVER_assume(l >= 1 && l <= MAX_BYTES); return l; }
+qbytes gh_read_bytes;                      /* the bytes taken from the socket by this slot invocation (last take) */
+unsigned gh_takes;                         /* how often bytes were taken */
 unsigned char __CPROVER_uninterpreted_utf8_decode(qbytes b);
 #define DECODED(b) text_atom(__CPROVER_uninterpreted_utf8_decode(b))
-static inline qbytes QSslSocket_readAll(QSslSocket *s) { qbytes b = s->pending; gh_read_bytes = b; s->pending = 0; s->reads++; return b; }
+static inline qbytes QSslSocket_readAll(QSslSocket *s) { qbytes b = s->pending; gh_read_bytes = b; gh_takes++; s->pending = 0; s->reads++; return b; }
+static inline qbytes QSslSocket_read(QSslSocket *s, long long maxlen) {
+  long long have = bytes_len(s->pending);
+  qbytes b, rest;
+  if (maxlen <= 0 || have == 0) { b = 0; rest = s->pending; }
+  else if (maxlen >= have) { b = s->pending; rest = 0; }
+  else {
+    b = __CPROVER_uninterpreted_bytes_left(s->pending, maxlen); rest = __CPROVER_uninterpreted_bytes_rest(s->pending, maxlen);
+    __CPROVER_assume(b != 0 && rest != 0 && b != s->pending && __CPROVER_uninterpreted_bytes_len(b) == maxlen && __CPROVER_uninterpreted_bytes_len(rest) == have - maxlen);
+  }
+  gh_read_bytes = b; gh_takes++; s->pending = rest; s->reads++;
+  return b;
+}
+static inline long long QSslSocket_bytesAvailable(QSslSocket *s) { return bytes_len(s->pending); }
 static inline qtext qtext_fromUtf8(qbytes b) { return DECODED(b); }
 unsigned char __CPROVER_uninterpreted_other_codec_decode(qbytes b);      /* fromLatin1 / fromLocal8Bit: some other function of the bytes */
 static inline qtext qtext_fromOtherCodec(qbytes b) { return text_atom(__CPROVER_uninterpreted_other_codec_decode(b)); }
@@ -233,6 +258,14 @@ static inline qtext qtext_fromOtherCodec(qbytes b) { return text_atom(__CPROVER_
 CONCRETE_MODEL = """
 typedef struct QSslSocket { cbytes pending; unsigned reads; } QSslSocket;
 static inline void QSslSocket_readAll(cbytes *ret, QSslSocket *s) { *ret = s->pending; s->pending.n = 0; s->reads++; }
+static inline void QSslSocket_read(cbytes *ret, QSslSocket *s, long long maxlen) {
+  int k, take = maxlen <= 0 ? 0 : (maxlen >= s->pending.n ? s->pending.n : (int)maxlen);
+  cbytes rest;
+  ret->n = take; rest.n = s->pending.n - take;
+  for (k = 0; k < U8_MAX; k++) { ret->b[k] = k < take ? s->pending.b[k] : 0; rest.b[k] = (k + take < U8_MAX && k < rest.n) ? s->pending.b[k + take] : 0; }
+  s->pending = rest; s->reads++;
+}
+static inline long long QSslSocket_bytesAvailable(QSslSocket *s) { return s->pending.n; }
 """
 
 
@@ -256,15 +289,18 @@ def lambda_spec(pd_spec_text):
         if '__CPROVER_is_fresh(self, sizeof(XmppSocket))' in ln:
             ln = '__CPROVER_requires(__CPROVER_is_fresh(self, sizeof(XmppSocket)) && __CPROVER_is_fresh(self->m_socket, sizeof(QSslSocket)))'
         lines.append(ln)
-    lines.insert(2, '__CPROVER_assigns(self->m_socket->pending, self->m_socket->reads, gh_read_bytes)')
-    lines += ['//: post.decodes_exactly_the_bytes_of_this_read_once',
-              '__CPROVER_ensures(gh_read_bytes == __CPROVER_old(self->m_socket->pending) && self->m_socket->pending == 0 && self->m_socket->reads == __CPROVER_old(self->m_socket->reads) + 1)']
+    lines.insert(2, '__CPROVER_assigns(self->m_socket->pending, self->m_socket->reads, gh_read_bytes, gh_takes)')
+    lines += ['//: post.no_byte_pending_at_the_start_of_the_slot_is_left_in_the_socket',
+              '__CPROVER_ensures(self->m_socket->pending == 0)',
+              '//: post.exactly_the_pending_bytes_are_decoded_and_handed_to_processData_once',
+              '__CPROVER_ensures(gh_read_bytes == __CPROVER_old(self->m_socket->pending) && gh_takes == __CPROVER_old(gh_takes) + 1)']
     return '\n'.join(lines) + '\n'
 
 
 def concrete_prof():
     calls = {
-        'QSslSocket::readAll/0': ('fnret', 'QSslSocket_readAll', 'cbytes'),
+        'QSslSocket::readAll/0': ('fnret', 'QSslSocket_readAll', 'cbytes'), 'QSslSocket::read/1': ('fnret', 'QSslSocket_read', 'cbytes'),
+        'QSslSocket::bytesAvailable/0': ('fn', 'QSslSocket_bytesAvailable'),
         'fn:fromUtf8/1': ('fnret', 'qt_fromUtf8', 'ctext'),
         'XmppSocket::processData/1': ('callee', 'XmppSocket_processData'),
     }
@@ -396,18 +432,21 @@ def build_connection_lambdas(b, src, mkhead, pd, proofs):
     proofs.append(p)
 
 
-def build_lambda_opaque(b, prof, head, pd, lam, proofs):
+def build_lambda_opaque(b, prof, mkhead, pd, lam, proofs):
     """the readyRead lambda (opaque bytes): contract of processData with data := fromUtf8(bytes of this read)"""
     from vlib.unit import Spec
     lsp = Spec(b.subst(lambda_spec(rd('processData.spec'))))
     t = Target(SRC, 'XmppSocket::setSocket', 'operator()', 'XmppSocket_onReadyRead', this='XmppSocket', lowerer_cls=LambdaLowerer)
     t.decl = lam
     lam_c = b.lower(t, lsp)
+    if b.last.loops:
+        raise Unsupported('the readyRead slot contains a loop: the contract of the unit describes ONE take-decode-deliver step per signal; a slot that drains '
+                          'the socket in several steps needs a loop contract over processData and a chunk-wise decoding lemma (not provided)')
     b.functions[-1]['function'] = 'XmppSocket::setSocket::<lambda connected to QSslSocket::readyRead>'
-    f = b.write('readyRead.c', head + '#define DATA (data)\n' + b.prototype(pd) + '#undef DATA\n#define DATA DECODED(gh_read_bytes)\n' + lam_c + """
+    f = b.write('readyRead.c', mkhead() + '#define DATA (data)\n' + b.prototype(pd) + '#undef DATA\n#define DATA DECODED(gh_read_bytes)\n' + lam_c + """
 void h_readyRead(void) {
   XmppSocket *self;
-  g_k = nondet_int(); gh_parse_calls = nondet_uint(); gh_read_bytes = nondet_int();
+  g_k = nondet_int(); gh_parse_calls = nondet_uint(); gh_read_bytes = nondet_int(); gh_takes = nondet_uint();
   XmppSocket_onReadyRead(self);
 }
 """)
@@ -425,8 +464,10 @@ def build_lambda_concrete(cb, src, lam, proofs):
     ct = Target(SRC, 'XmppSocket::setSocket', 'operator()', 'XmppSocket_onReadyRead', this='XmppSocket', lowerer_cls=LambdaLowerer)
     ct.decl = lam
     clam = cb.lower(ct, None)
+    if cb.last.loops:
+        raise Unsupported('the readyRead slot contains a loop (see readyRead_lambda)')
     cb.functions[-1]['function'] = 'XmppSocket::setSocket::<lambda connected to QSslSocket::readyRead> (bounded concrete byte model)'
-    ctext_c = '#include "base.h"\n' + rd('utf8_model.h') + CONCRETE_MODEL + crec + '\n' + LEMMA_UTF8.replace('PROTO_LAMBDA', clam)
+    ctext_c = '#include "base.h"\n' + rd('utf8_model.h') + CONCRETE_MODEL + crec + '\n' + cb.context() + '\n' + LEMMA_UTF8.replace('PROTO_LAMBDA', clam)
     f = cb.write('two_reads.c', ctext_c)
     bound = 'two socket reads of <= 4 bytes each (every byte value except NUL); QString::fromUtf8 = concrete model units/C03/utf8_model.h'
     for pid, define, finding, note in (
@@ -504,7 +545,7 @@ void h_processData(void) {
         proofs.append(UndecidedProof('readyRead_lambda', str(e)))
     if lam is not None:
         try:
-            build_lambda_opaque(b, prof, head, pd, lam, proofs)
+            build_lambda_opaque(b, prof, mkhead, pd, lam, proofs)
         except Unsupported as e:
             proofs.append(UndecidedProof('readyRead_lambda', str(e)))
         try:
